@@ -9,9 +9,9 @@ import (
 // Gen produces structured, mostly valid inputs.  Every random choice comes from
 // one PRNG so that a (seed, case index) pair replays exactly.
 type Gen struct {
-	R                                   *rand.Rand
-	bigMerges                           int // BigMerge cycles through its three variants
-	bigBuilds, twins, reencodes, exacts int
+	R                                                              *rand.Rand
+	bigMerges                                                      int // BigMerge cycles through its three variants
+	bigBuilds, twins, reencodes, exacts, zerodocs, onehits, tinies int
 }
 
 func NewGen(seed int64) *Gen { return &Gen{R: rand.New(rand.NewSource(seed))} }
